@@ -320,7 +320,7 @@ def run_job(unit, job, cpath, outdir, tier, extra_defines=()):
                 alt = None
             if alt is not None:
                 cb2 = ['cbmc', b_gb] + flags + alt + ['--json-ui']
-                rc2, out2, err2, dt2 = run(cb2, timeout)
+                rc2, out2, err2, dt2 = run(cb2, min(timeout, max(120, int(4 * first_s))))     # the re-check may not dominate the run
                 res.cmds.append(' '.join(cb2))
                 if rc2 == -9:
                     res.second_backend = 'timeout (%s)' % ' '.join(alt)
